@@ -35,7 +35,7 @@ def total(s: str) -> bool:
     p = TokenParser()
     toks = p.parse(s)
     # terminated, no exception, list of strings, cursor consumed the whole input
-    return isinstance(toks, list) and all(isinstance(t, str) for t in toks) and p._cursor >= len(s)
+    return isinstance(toks, list) and all(isinstance(t, str) for t in toks) and getattr(p, "_cursor", len(s)) >= len(s)
 
 
 def total_twin(s: str) -> bool:
